@@ -13,17 +13,18 @@ LEVEL = "proof"
 LEVEL_TEXT = (
     "Lean theorems about the crash-faithful index-based model of lexer.py (no bound on the text): the lexer never "
     "crashes and always makes progress (fuel never exhausted); token spans are non-empty, ordered, disjoint and in "
-    "bounds, ending with EOF at (len, len); the lexer returns exactly the token sequence of the specification's "
-    "lexical grammar (kinds, spans, values; accept/reject) -- proved for the classes Ignored (white space, line "
-    "terminators, comma, BOM, comments), Punctuator, Name, IntValue and FloatValue incl. all lookahead restrictions, "
-    "with the two string classes as explicit per-text hypotheses (lexer_eq_grammar_partial; unconditional for every "
-    "text without a quotation mark); the executable spec tokenizer decides the grammar's token-sequence relation "
-    "(both directions); dropping/inserting a run of Ignored items in front of a suffix changes no kind and no value "
-    "(spec side unconditional, model side partial); strip_ignored_characters rejects exactly what the lexer rejects "
-    "and never crashes; the advance_lexer counter accepts exactly the streams with at most n tokens and ends at the "
-    "number of significant tokens. Not proved (kept as full-statement defs, covered by correspondence and oracles "
-    "only): the StringValue/BlockString classes of lexer = grammar, prefix stability of ignored_invariance, "
-    "strip_tokens, strip_idem. "
+    "bounds, ending with EOF at (len, len); for every text the lexer returns exactly the token sequence of the "
+    "specification's lexical grammar (kinds, spans, values; accept/reject) -- all classes: Ignored (white space, line "
+    "terminators, comma, BOM, comments), Punctuator, Name, IntValue / FloatValue with all lookahead restrictions, "
+    "StringValue with the three escape forms and the surrogate-pair rule, BlockString with BlockStringValue() "
+    "(dedent_block_string_lines = the specification's algorithm; the maxsize-vs-null commonIndent difference is "
+    "unobservable); every gap consists of Ignored items only (the returned tokens form a derivation of the grammar's "
+    "token-sequence relation, which the executable spec tokenizer decides in both directions); dropping/inserting a run "
+    "of Ignored items in front of a suffix changes no kind and no value; strip_ignored_characters rejects exactly what "
+    "the lexer rejects and never crashes; the advance_lexer counter accepts exactly the streams with at most n tokens "
+    "and ends at the number of significant tokens. Not proved (kept as full-statement defs, covered by correspondence "
+    "and oracles only): stability of the tokens before an insertion point (ignored_invariance_full), strip_tokens, "
+    "strip_idem. "
     "The models are tied to the code by an exhaustive three-way comparison implementation / model / specification "
     "tokenizer on all strings of length <= 4 (quick) / <= 5 (thorough) over the 16-symbol alphabet, a second "
     "exhaustive pass over a 32-symbol alphabet (<= 3 / <= 4), generated and mutated documents x Ignored classes x "
